@@ -140,7 +140,7 @@ func (s *MultipartReply) UnmarshalBinary(data []byte) error {
 		case MultipartType_Aggregate:
 			repl = new(AggregateStats)
 		case MultipartType_Desc:
-			repl = new(DescStats)
+			repl = NewDescStats()
 		case MultipartType_Flow:
 			repl = new(FlowStats)
 		case MultipartType_Port:
